@@ -64,6 +64,9 @@ impl de::Error for TapeError {
 // ------------------------------------------------------------------------------------------
 // recording serializer
 
+/// The armed callback unwinds instead of returning an error.
+static PANIC_MODE: std::sync::atomic::AtomicBool = std::sync::atomic::AtomicBool::new(false);
+
 #[derive(Clone)]
 pub struct TapeSer {
     tape: Rc<RefCell<Vec<Tok>>>,
@@ -78,6 +81,9 @@ impl TapeSer {
         let c = self.calls.get() + 1;
         self.calls.set(c);
         if c == self.fail_at {
+            if PANIC_MODE.load(std::sync::atomic::Ordering::Relaxed) {
+                panic!("injected: serializer callback #{}", c);
+            }
             return Err(TapeError::Injected(c));
         }
         self.tape.borrow_mut().push(t);
@@ -265,6 +271,9 @@ impl<'t> TapeDe<'t> {
         let c = self.calls.get() + 1;
         self.calls.set(c);
         if c == self.fail_at {
+            if PANIC_MODE.load(std::sync::atomic::Ordering::Relaxed) {
+                panic!("injected: deserializer callback #{}", c);
+            }
             return Err(TapeError::Injected(c));
         }
         Ok(())
@@ -603,6 +612,8 @@ pub struct SerdeStats {
     pub value_deserializer_cases: u64,
     pub by_type: [u64; 10],
     pub wrong_input_cases: u64,
+    pub de_panic_points: u64,
+    pub unwind_blocks_left: u64,
     pub wrong_input_rejected: u64,
     pub strict_cases: u64,
     pub entry_points: std::collections::BTreeSet<&'static str>,
@@ -860,8 +871,66 @@ fn check_type<T: TestVal>(seed: u64, only_k: Option<(bool, u32)>, st: &mut Serde
             }
         }
     }
+    let mut tolerated = 0usize;
+    if only_k.is_none() || matches!(only_k, Some((false, 0))) {
+        // ---- callbacks that unwind instead of returning an error. C17 speaks of errors, C07
+        // tolerates leaks on unwinding: what is required is that the panic propagates, that nothing
+        // is destroyed twice, and that whatever the partial value had built is destroyed exactly as
+        // when the value is deserialised on its own. Blocks left behind are counted, not reported.
+        ctx("de 0");
+        use std::panic::{catch_unwind, AssertUnwindSafe};
+        for k in 1..=dcalls {
+            st.evaluations += 1;
+            st.de_panic_points += 1;
+            PANIC_MODE.store(true, std::sync::atomic::Ordering::Relaxed);
+            let ids0 = live_ids();
+            let rt = catch_unwind(AssertUnwindSafe(|| {
+                let (pos, calls) = (Cell::new(0), Cell::new(0));
+                T::deserialize(TapeDe { toks: &base, pos: &pos, calls: &calls, fail_at: k, log: &Cell::new(0), strict: false })
+            }));
+            let t_unwound = rt.is_err();
+            drop(rt);
+            let t_left = live_ids() as i64 - ids0 as i64;
+            let ids1 = live_ids();
+            let blocks1 = ledger::live_count();
+            let ra = tracked(|| {
+                catch_unwind(AssertUnwindSafe(|| {
+                    let (pos, calls) = (Cell::new(0), Cell::new(0));
+                    Arc::<T>::deserialize(TapeDe { toks: &base, pos: &pos, calls: &calls, fail_at: k, log: &Cell::new(0), strict: false })
+                }))
+            });
+            let ru = tracked(|| {
+                catch_unwind(AssertUnwindSafe(|| {
+                    let (pos, calls) = (Cell::new(0), Cell::new(0));
+                    UniqueArc::<T>::deserialize(TapeDe { toks: &base, pos: &pos, calls: &calls, fail_at: k, log: &Cell::new(0), strict: false })
+                }))
+            });
+            PANIC_MODE.store(false, std::sync::atomic::Ordering::Relaxed);
+            let (a_unwound, u_unwound) = (ra.is_err(), ru.is_err());
+            tracked(|| {
+                drop(ra);
+                drop(ru);
+            });
+            if t_unwound != a_unwound || t_unwound != u_unwound {
+                violation(
+                    "serde:de-differs",
+                    format!("deserialising {} with callback {} unwinding: the value's own deserialiser unwound={}, Arc unwound={}, UniqueArc unwound={}", T::NAME, k, t_unwound, a_unwound, u_unwound),
+                );
+            }
+            let left = live_ids() as i64 - ids1 as i64;
+            if left != 2 * t_left {
+                violation(
+                    if left < 2 * t_left { "double-drop" } else { "leak:identity" },
+                    format!("deserialising Arc/UniqueArc<{}> with callback {} unwinding left {} piece(s) alive, the value's own deserialiser leaves {} each time", T::NAME, k, left, t_left),
+                );
+            }
+            let behind = ledger::live_count() - blocks1;
+            st.unwind_blocks_left += behind as u64;
+            tolerated += behind;
+        }
+    }
     let rep = ledger::end_run();
-    if rep.nleaks != 0 || rep.nwaf != 0 {
+    if rep.nleaks != tolerated || rep.nwaf != 0 {
         violation("leak:block", format!("{}: {} block(s) leaked, {} written after free", T::NAME, rep.nleaks, rep.nwaf));
     }
 }
